@@ -136,7 +136,7 @@ CLAIMED = {
         category="proof",
         text=("Lean theorems for every dimension: each uhf force-bias component is the mixed expectation of the spin-summed one-body operator L_g for "
               "the product bra (D1 + trace cyclicity), rhf restricted = unrestricted on [W, W], and the one-body numerator over the overlap is "
-              "tr((C^H W)^-1 C^H O W), the first-order coefficient along 1 + xO. NOCI's overlap-weighted combination is the mixed expectation for the combined bra. Tied to the code by every component vs the Lean model at Q(i), by all "
+              "tr((C^H W)^-1 C^H O W), the first-order coefficient along 1 + xO. NOCI's overlap-weighted combination is the mixed expectation for the combined bra. As a statement about the function of r: <psi|(1 + rO)phi> = <psi|phi>(1 + r tr((C^H W)^-1 C^H O W) + r^2 Q(r)) with Q a polynomial, so the force bias is the logarithmic derivative of the overlap along the generator (overlap_along_generator). Tied to the code by every component vs the Lean model at Q(i), by all "
               "12 classes / entry points vs the Fock-space expectation, and by forward-mode and finite-difference logarithmic derivatives of the "
               "library's own overlap along expm(x L_g)."),
         design_ref="DESIGN.md §5/C03",
